@@ -24,7 +24,7 @@ import vlib
 LEVEL = "model_checking"
 
 RULE = ("spec->impl: every multiset of <= N points of the 3x3 lattice (TLC-enumerated; N = 3 quick, 6 thorough), in canonical order "
-        "and two rotations (six-point multisets: canonical order only), x 13 queries (9 lattice, 4 off-lattice) x {Manhattan, Euclid, "
+        "and two rotations (five-point multisets: one rotation, six-point multisets: canonical order only), x 13 queries (9 lattice, 4 off-lattice) x {Manhattan, Euclid, "
         "Minkowski-3, Hamming} x {LinearKNNSearch, CoverTree} x every k in 0..n+1 x every radius at / between / below / above the "
         "occurring distances and r = 0, r < 0; every reachable state of the heap model, every behaviour of the linear-search model and "
         "every data sequence of the cover-tree model replayed through the real code.  impl->spec: seeded random data sets of 1..200 "
@@ -46,6 +46,7 @@ NOT_COVERED = ["Mahalanobis as the search metric", "data sets beyond 200 points"
 KNOWN_KEYS = {
     "n1": "CoverTree::new panics on a one-point data set",
     "ident": "CoverTree::new panics when all (n >= 2) points are identical (overflow checks on)",
+    "radius-boundary": "CoverTree::find_radius misses points at distance exactly r (inexact metric arithmetic: r + max_dist rounds below d)",
     "est-n1": "k-NN estimator fit with the CoverTree algorithm panics on a single training row",
     "est-ident": "k-NN estimator fit with the CoverTree algorithm panics when all training rows are identical",
 }
@@ -63,6 +64,12 @@ def key_of(e, clause):
                 return KNOWN_KEYS["n1"]
             if e.get("ident"):
                 return KNOWN_KEYS["ident"]
+        # metrics whose floating-point evaluation is exact on the lattice data sent by the harness (multiples of 1/2):
+        # Manhattan, Minkowski-1, and Hamming over 1, 2 or 4 coordinates (d = count/len)
+        exact = e.get("src") == "lat" and (e.get("metric") == "man" or (e.get("metric") == "mink" and e.get("p") == 1)
+                                           or (e.get("metric") == "ham" and len(e.get("q", [])) in (1, 2, 4)))
+        if clause == "Radius:at:boundary-miss" and e.get("backend") == "cover" and not exact:
+            return KNOWN_KEYS["radius-boundary"]
         return "%s %s: backend=%s metric=%s/%s src=%s n=%s" % (ev, clause, e.get("backend", "cover"), e.get("metric", "man"),
                                                            e.get("p", 1), e.get("src", "lat"), e.get("n"))
     if ev == "KnnPredict":
@@ -153,6 +160,8 @@ def run(ctx):
         "ct1": lambda: mc("CoverTreeMC.tla", "CoverTreeMC_%s.cfg" % tier, ("BuildStep",)),
         "ct2": lambda: mc("CoverTreeMC.tla", "CoverTreeMC2_%s.cfg" % tier, ("BuildStep",)),
     }
+    if tier == "thorough":
+        jobs["ct3"] = lambda: mc("CoverTreeMC.tla", "CoverTreeMC3_thorough.cfg", ("BuildStep",))
     res = {}
     with ThreadPoolExecutor(max_workers=4) as ex:
         futs = {k: ex.submit(f) for k, f in jobs.items()}
@@ -168,7 +177,7 @@ def run(ctx):
     f_lin_in = ctx.path("c04-lin-in.ndjson")
     n_lin_in = write_inputs(f_lin_in, res["lin"][1])
     f_tree_in = ctx.path("c04-tree-in.ndjson")
-    n_tree_in = write_inputs(f_tree_in, list(res["ct1"][1]) + list(res["ct2"][1]))
+    n_tree_in = write_inputs(f_tree_in, [p for k in ("ct1", "ct2", "ct3") if k in res for p in res[k][1]])
     lat_lines = [b for t, b in res["lat"][1] if t == "REPLAY"]
     max_n = 3 if tier == "quick" else 6
     if len(lat_lines) != multisets_upto(max_n) or len(set(lat_lines)) != len(lat_lines):
@@ -246,6 +255,12 @@ def run(ctx):
         for (l, clause) in sorted(items):
             e = evs[l]
             ctx.report(key_of(e, clause), "%s fails on event %d of %s (%s)" % (clause, l, os.path.basename(f), e.get("ev")), [e])
+
+    # the lattice chunks that had something to report are not needed any more (violating events
+    # are stored in the replay artefacts)
+    for f in by_file:
+        if os.path.basename(f).startswith("c04-lat-") and os.path.exists(f):
+            os.remove(f)
 
     # ------------------------------------------------------------------ 4. evidence
     ctx.states = sum(r["distinct"] for r in ctx.mc_runs) + sum(r["events"] + 1 for r in ctx.trace_runs)
